@@ -10,7 +10,7 @@ MODULES = ["Cache", "MC_Cache", "Trace_Cache"]
 TRACE = ("Trace_Cache", "Trace_Cache.cfg")
 EXHAUSTIVE = True
 RULE = ("TLC explores every interleaving of mutators (translate_rotate on scenario / obstacle / prediction / network "
-        "level, trajectory / shape / prediction replacement, update_initial_state, lanelet add / remove, cycle "
+        "level, trajectory / shape / prediction replacement, update_initial_state, lanelet add / remove / network merge, cycle "
         "setters) and cache-filling queries up to depth 4 (5 thorough) on the implementation-shaped model and checks "
         "answer = Recompute(primary); the labelled state graph up to depth 3 is dumped and a transition cover is "
         "executed on real objects (so every cache is filled before it is invalidated), plus seeded random histories "
@@ -23,6 +23,7 @@ ASSUMPTIONS = ["rotations are quarter turns and coordinates integers so expected
                "fresh twin = object rebuilt through public constructors from the mutated object's primary data"]
 
 COLS = ["red", "green", "yellow"]
+BOXES = {1: (0, 0, 2, 1), 2: (2, 0, 4, 1), 3: (0, 1, 2, 2)}
 
 
 def model_check(ctx):
@@ -30,6 +31,7 @@ def model_check(ctx):
     ctx.mc_expect("MC_Cache", "DEV_Cache_1.cfg", "InvFresh")
     ctx.mc_expect("MC_Cache", "DEV_Cache_2.cfg", "InvFresh")
     ctx.mc_expect("MC_Cache", "DEV_Cache_3.cfg", "InvFresh")
+    ctx.mc_expect("MC_Cache", "DEV_Cache_4.cfg", "InvFresh")
 
 
 def cases(ctx):
@@ -244,6 +246,15 @@ def mutate(a, sc, ob, light):
         sc.add_objects(_box_lanelet(arg[0], 0, 1, 2, 2))
     elif op == "remove_lanelet":
         sc.remove_lanelet(sc.lanelet_network.find_lanelet_by_id(arg[0]))
+    elif op == "merge_network":
+        from commonroad.scenario.lanelet import LaneletNetwork
+        src = LaneletNetwork()
+        for i in arg:                                           # source lanelets in this order (fresh, unmoved boxes)
+            src.add_lanelet(_box_lanelet(i, *BOXES[i]))
+        sc.lanelet_network.add_lanelets_from_network(src)
+        for la in sc.lanelet_network.lanelets:                   # keep the scenario's id registry in step (network-level API)
+            if not sc._is_object_id_used(la.lanelet_id):
+                sc._mark_object_id_as_used(la.lanelet_id)
     elif op == "set_cycle_elements":
         names = {0: "RED", 1: "GREEN", 2: "YELLOW"}
         light.traffic_light_cycle.cycle_elements = [TrafficLightCycleElement(TrafficLightState[names[arg[i + 1]]], arg[i])
@@ -287,7 +298,7 @@ def _random_ops(seed, n):
                         "arg": [r.randint(-3, 3), r.randint(-3, 3), r.randint(0, 3)]})
         else:
             op = r.choice(["set_trajectory", "set_pshape", "update_prediction", "update_initial_state", "add_lanelet",
-                           "remove_lanelet", "set_cycle_elements", "set_offset", "set_duration"])
+                           "remove_lanelet", "merge_network", "set_cycle_elements", "set_offset", "set_duration"])
             if op in ("set_trajectory", "update_prediction"):
                 n_p = r.randint(0 if op == "update_prediction" else 1, 3)
                 arg = [v for _ in range(n_p) for v in (r.randint(-4, 4), r.randint(-4, 4), r.randint(0, 3))]
@@ -297,6 +308,8 @@ def _random_ops(seed, n):
                 arg = [r.randint(-4, 4), r.randint(-4, 4), r.randint(0, 3), r.randint(1, 3)]
             elif op == "add_lanelet":
                 arg = [3]
+            elif op == "merge_network":
+                arg = r.sample([1, 2, 3], r.randint(1, 3))
             elif op == "remove_lanelet":
                 arg = [r.choice([1, 2, 3])]
             elif op == "set_cycle_elements":
